@@ -72,6 +72,10 @@ def verdict(impl, model):
         bad = ("model", "Node.GetByPath: implementation %s, model %s" % (impl[2], model[4]))
     elif impl[3] != model[5]:
         bad = ("model", "Preorder events: implementation and model differ")
+    elif len(model) > 8 and model[7] != model[8]:
+        bad = ("spec", "traverser model with a skipping visitor vs flattening with the skipped subtrees removed differ")
+    elif len(impl) > 5 and len(model) > 7 and impl[5] != model[7]:
+        bad = ("model", "Preorder events with a visitor answering VisitOPSkip: implementation and model differ")
     for p in split_problems(impl[4]):
         if p.startswith("KNOWN-dupidx"):
             known.append("KF-C14-dupkey-index")
@@ -147,7 +151,7 @@ def shrink_doc(runner, fields, kind):
 
     def still_fails(d):
         t = dump(d)
-        line = "\t".join(["shr", "", fields[2], binascii.hexlify(t.encode("utf8", "surrogatepass")).decode()])
+        line = "\t".join(["shr", "", fields[2], binascii.hexlify(t.encode("utf8", "surrogatepass")).decode()] + list(fields[4:5]))
         # the harness recomputes the tokens from the text when the token field is empty
         impl, model = runner.run([line])
         v, _ = verdict(impl.get("shr"), model.get("shr"))
@@ -170,7 +174,7 @@ def shrink_doc(runner, fields, kind):
     t = dump(doc)
     if not still_fails(doc):      # the re-rendering lost the failure (spelling-dependent): keep the original text
         return fields
-    return [fields[0], "", fields[2], binascii.hexlify(t.encode("utf8", "surrogatepass")).decode()]
+    return [fields[0], "", fields[2], binascii.hexlify(t.encode("utf8", "surrogatepass")).decode()] + list(fields[4:5])
 
 
 def run(ctx):
@@ -296,7 +300,8 @@ def run(ctx):
             if len(f) > 3:
                 mf = shrink_doc(runner, f, kind)
             im, mo = runner.run(["\t".join(["min"] + mf[1:])], full=True)
-            info = {"case_line": "\t".join(["min"] + mf[1:]), "path": f[2], "impl": im.get("min"), "model": mo.get("min")}
+            info = {"case_line": "\t".join(["min"] + mf[1:]), "path": f[2], "visitor_skips_containers": (mf[4] if len(mf) > 4 else "-"),
+                    "impl": im.get("min"), "model": mo.get("min")}
             try:
                 import binascii
                 info["document"] = binascii.unhexlify(mf[3]).decode("utf8", "replace")
